@@ -1,6 +1,7 @@
 // C02 - every list implementation is the same abstract sequence (incl. iterators).
 // Lock-step histories on array / linked_list / dlinked_list against std::vector<optional<string>>.
 #include "../../engine/rcglue.hpp"
+#include "tracker.hpp"
 #include "../../engine/latrack.hpp"
 #include <optional>
 
@@ -103,6 +104,7 @@ struct Interp {
 
     void run(const Case &c) {
         ht_install();
+        tracker_begin(ctx);
         VT_CHECK(ctx, LA(c02_init()) == 1, "mismatch", "new; a list constructor returned NULL");
         for (int k = 0; k < 3; k++) VT_CHECK(ctx, LA(c02_type_ok(k)), "mismatch", "type:" << kCls[k] << "; type() does not identify the class");
         verify("after construction");
@@ -114,7 +116,8 @@ struct Interp {
         }
         ctx.step((int)c.size());
         VT_CHECK(ctx, LA(c02_teardown()) == 1, "mismatch", "del; del returned FALSE");
-        if (!ht_overflowed() && ht_live_count() != 0) {
+        if (tracker_final(ctx)) {
+        } else if (!ht_overflowed() && ht_live_count() != 0) {
             char buf[256];
             ht_describe(buf, sizeof buf);
             ctx.fail("leak", "heap-not-balanced; " + std::to_string(ht_live_count()) + " block(s), " + std::to_string(ht_live_bytes()) + " bytes live after deleting all lists: " + buf);
